@@ -141,7 +141,16 @@ VSleep ==
           /\ out' = os
     /\ UNCHANGED <<cfg, parents, idx, closed, finished, implvars>>
 
-VNext == VReset \/ VDeliver \/ VClose \/ VSleep \/ VFinish
+(* gated streamed batch parents (driver: gate.go): the reader of parent src has  *)
+(* handled one begin/point message of a batch it is reassembling - nothing can   *)
+(* reach the node, so nothing may come out of it (reader-side reassembly itself   *)
+(* is modelled in MultiConsumer.tla)                                              *)
+VPart ==
+    /\ IsEv("Part") /\ ~finished
+    /\ Ln.out = <<>>
+    /\ UNCHANGED <<cfg, parents, idx, closed, finished, out, implvars>>
+
+VNext == VReset \/ VDeliver \/ VClose \/ VSleep \/ VPart \/ VFinish
 VSpec == TrInit /\ [][VNext]_tvars
 
 (* ================= drift level ================= *)
@@ -187,7 +196,9 @@ IFinish ==
     /\ SameOuts(Ln.out)
     /\ UNCHANGED <<cfg, parents, idx>>
 
-INext == IReset \/ IDeliver \/ IClose \/ IFinish
+IPart == IsEv("Part") /\ Ln.out = <<>> /\ UNCHANGED <<cfg, parents, idx, closed, finished, out, implvars>>
+
+INext == IReset \/ IDeliver \/ IClose \/ IPart \/ IFinish
 ISpec == TrInit /\ [][INext]_tvars
 
 HW == HWMark(l)
